@@ -424,4 +424,35 @@ theorem gM_paired (n : Int) (hp : fieldOf gpM n ∈ msgFields gpM) (hc : fieldOf
 theorem gP_paired : FieldPaired gCur gPrev (fieldOf gcP 1) (fieldOf gpP 1) :=
   Or.inl ⟨gpP, gcP, by decide, by decide, by decide, by decide, by decide, rfl⟩
 
+
+/-! ### defaults of 64-bit integer fields above 2^53: witness `dPrev → dCur`
+    proto2 `message Lim { optional int64 max_offset = 1 [default = 9007199254740993];
+    optional uint64 max_id = 2 [default = 18446744073709551615]; optional sint64 floor = 3
+    [default = -9223372036854775807]; optional string tag = 4 [default = "abc"]; }` versus the same
+    with the defaults 9007199254740992, 18446744073709551614, -9223372036854775808, "ABC" (each pair
+    of integers rounds to the same float64) -/
+def dFile (d1 d2 d3 d4 : DefVal) : File :=
+  { path := "lim.proto", pkg := ["lim"], syn := .proto2, opts := [],
+    locs := [[4, 0], [4, 0, 2, 0], [4, 0, 2, 0, 7], [4, 0, 2, 1], [4, 0, 2, 1, 7], [4, 0, 2, 2], [4, 0, 2, 2, 7],
+             [4, 0, 2, 3], [4, 0, 2, 3, 7]],
+    messages := [.mk { info "Lim" with fields :=
+      [{ fld 1 "max_offset" .int64 with hasPresence := true, dflt := d1 },
+       { fld 2 "max_id" .uint64 with hasPresence := true, dflt := d2 },
+       { fld 3 "floor" .sint64 with hasPresence := true, dflt := d3 },
+       { fld 4 "tag" .string with hasPresence := true, dflt := d4 }] } []],
+    enums := [], services := [], extensions := [] }
+
+def dPrev : Schema := [dFile (.num "9007199254740993/1" false) (.num "18446744073709551615/1" false)
+  (.num "-9223372036854775807/1" false) (.str "616263")]
+def dCur : Schema := [dFile (.num "9007199254740992/1" false) (.num "18446744073709551614/1" false)
+  (.num "-9223372036854775808/1" false) (.str "414243")]
+
+theorem dCur_wf : WF dCur := WF_of_wfB _ (by decide)
+def dpM : FlatMsg := msgOf dPrev ["lim", "Lim"]
+def dcM : FlatMsg := msgOf dCur ["lim", "Lim"]
+theorem dM_paired (n : Int) (hp : fieldOf dpM n ∈ msgFields dpM) (hc : fieldOf dcM n ∈ msgFields dcM)
+    (hn : (fieldOf dcM n).field.number = (fieldOf dpM n).field.number) :
+    FieldPaired dCur dPrev (fieldOf dcM n) (fieldOf dpM n) :=
+  Or.inl ⟨dpM, dcM, by decide, by decide, by decide, hp, hc, hn⟩
+
 end BufProofs.Breaking.W
